@@ -33,33 +33,6 @@ where
 		}
 	};
 	let buf: [u8; 16] = rust_decimal.mantissa().to_be_bytes();
-	#[inline]
-	fn can_truncate_without_altering_number(buf: &[u8]) -> usize {
-		// If it's a negative number we can ignore all 0xff followed by MSB
-		// at 1 If it's a positive number we can ignore all 0x00 followed by MSB at 0
-		let mut can_truncate = 0;
-		if buf[0] & 0x80 == 0 {
-			// Positive number
-			while buf.get(can_truncate).map_or(false, |&v| v == 0x00) {
-				can_truncate += 1;
-			}
-			// In case some other deserializers explode when giving empty bytes to
-			// represent zero we'll play it safe and still serialize it as a
-			// single byte with zeroes
-			if can_truncate != 0 && buf.get(can_truncate).map_or(true, |&v| v & 0x80 != 0) {
-				can_truncate -= 1;
-			}
-		} else {
-			// Negative number
-			while buf.get(can_truncate).map_or(false, |&v| v == 0xFF) {
-				can_truncate += 1;
-			}
-			if can_truncate != 0 && buf.get(can_truncate).map_or(true, |&v| v & 0x80 == 0) {
-				can_truncate -= 1;
-			}
-		}
-		can_truncate
-	}
 	let start = match decimal_mode {
 		DecimalMode::Big
 		| DecimalMode::Regular(Decimal {
@@ -157,4 +130,32 @@ where
 			.map_err(SerError::io)?;
 	}
 	Ok(())
+}
+
+#[inline]
+pub(super) fn can_truncate_without_altering_number(buf: &[u8]) -> usize {
+	// If it's a negative number we can ignore all 0xff followed by MSB
+	// at 1 If it's a positive number we can ignore all 0x00 followed by MSB at 0
+	let mut can_truncate = 0;
+	if buf[0] & 0x80 == 0 {
+		// Positive number
+		while buf.get(can_truncate).map_or(false, |&v| v == 0x00) {
+			can_truncate += 1;
+		}
+		// In case some other deserializers explode when giving empty bytes to
+		// represent zero we'll play it safe and still serialize it as a
+		// single byte with zeroes
+		if can_truncate != 0 && buf.get(can_truncate).map_or(true, |&v| v & 0x80 != 0) {
+			can_truncate -= 1;
+		}
+	} else {
+		// Negative number
+		while buf.get(can_truncate).map_or(false, |&v| v == 0xFF) {
+			can_truncate += 1;
+		}
+		if can_truncate != 0 && buf.get(can_truncate).map_or(true, |&v| v & 0x80 == 0) {
+			can_truncate -= 1;
+		}
+	}
+	can_truncate
 }
